@@ -135,7 +135,7 @@ def emit(kw, workers=8):
     if n[0] == 0:
         raise tlc.MachineryError("emission produced no behaviour")
     for key, g in groups.items():
-        if g["verdicts"] != {("ok", "ok")}:
+        if not g["verdicts"] <= {("ok", "ok"), ("ok", "NotDriven")}:     # NotDriven: MaxOps reached mid-body
             raise tlc.MachineryError(f"the repaired-design model emitted a behaviour its own monitor rejects: {key} {g['verdicts']}")
     return r, groups, n[0]
 
@@ -325,7 +325,7 @@ def signature(run, trace, badl, clause, fin):
                              for x in ev[:badl - 1])
         if first_bad == "read" and partial_before:
             sig = "read-all-after-partial-read-with-content-decoding"
-    if clause == "IntactNeverRaises" and e and e["err"] == "DecodeError" and layers[-1] == "zstd-mf" \
+    if clause == "IntactNeverRaises" and e and e["err"] == "DecodeError" and "zstd-mf" in layers \
             and "multiple times" in trace.get("detail", ""):
         sig = "zstd-frame-end-at-feed-boundary"
     if f["dmg"] == "negsize" and clause in ("MalformedChunkRaises", "InOrderNoLossNoDup"):
